@@ -100,6 +100,15 @@ func genDefs(t *rapid.T, c *Case) string {
 	b.WriteString("def get_xn():\n    return XN\n")
 	b.WriteString("def get_first():\n    return XN[0]\n")
 	b.WriteString("def get_xd(key):\n    return XD[key]\n")
+	// functions returning a literal / having a literal default: a constant list literal is folded into one
+	// shared, unfrozen object by the build_defs optimiser (recorded finding), so when that is listed the
+	// literals are made non-constant
+	if lib.Known("C17", "shared-constant") {
+		lib.Rec(spec).Excluded("shared-constant")
+		b.WriteString("_one = 1\ndef mk():\n    return [[_one, 2], [3 * _one]]\ndef dflt(p=[_one, 2]):\n    return p\n")
+	} else {
+		b.WriteString("def mk():\n    return [[1, 2], [3]]\ndef dflt(p=[1, 2]):\n    return p\n")
+	}
 	if rapid.IntRange(0, 2).Draw(t, "config") > 0 {
 		c.Labels = append(c.Labels, "config_value")
 		b.WriteString("CONFIG.setdefault(\"VERIF_K\", [" + intList(t, 2) + ", " + intList(t, 3) + "])\n")
@@ -170,6 +179,9 @@ var attempts = []attempt{
 	{"config_sorted_inner", "k = sorted(CONFIG.VERIF_K[0])\nk2 = reversed(CONFIG.VERIF_K[1])", true},
 	{"base_config_assign", "k = CONFIG.BUILD_FILE_NAMES\nk[0] = \"zz\"", false},
 	{"unpack_assign", "a, b = [XN[0], XN[1]]\na[0] = 22", false},
+	{"literal_result_assign", "a = mk()\na[0] = [0]", true},
+	{"literal_result_inner_assign", "a = mk()[0]\na[0] = 7", true},
+	{"default_arg_assign", "a = dflt()\na[0] = 9", true},
 	{"function_arg_assign", "def poke(p):\n    p[0] = 23\n    return p\na = poke(XN[0])", false},
 }
 
@@ -204,7 +216,7 @@ func gen(t *rapid.T) Case {
 	c.Mut1 = genMut(t, "mut1")
 	c.Mut2 = genMut(t, "mut2")
 	c.Observer = "subinclude(\"@DEFS@\")\n" +
-		"O1 = [x for x in XS]\nO2 = get_xn()\nO3 = CONFIG.VERIF_K\nO4 = get_first()\nO5 = XD[\"k\"] + XM[0]\nO6 = CONFIG.BUILD_FILE_NAMES\nO7 = json(XM)\nO8 = [get_xd(k) for k in sorted(XD.keys())]\n" +
+		"O1 = [x for x in XS]\nO2 = get_xn()\nO3 = CONFIG.VERIF_K\nO4 = get_first()\nO5 = XD[\"k\"] + XM[0]\nO6 = CONFIG.BUILD_FILE_NAMES\nO7 = json(XM)\nO8 = [get_xd(k) for k in sorted(XD.keys())]\nO9 = mk()\nO10 = dflt()\n" +
 		"build_rule(name = \"obs\", cmd = \" \".join([json(XN), json(XD), json(XM), json(O3)]), labels = XS + [str(len(XN[0]))] + O6)\n"
 	sort.Strings(c.Labels)
 	return c
